@@ -146,7 +146,9 @@ func (p *SNIProxy) ServeTCP(in net.Conn) error {
 	}
 
 	go cp(in, out, t.RxCounter)
-	go cp(out, in, t.TxCounter)
+	// copy from the buffered reader, not from the raw connection: bytes which
+	// arrived together with the ClientHello are already in its buffer
+	go cp(out, tlsReader, t.TxCounter)
 	err = <-errc
 	if err != nil && err != io.EOF {
 		log.Print("[WARN]: tcp+sni:  ", err)
